@@ -36,7 +36,17 @@ def f32(x):
     return float(np.float32(x))
 
 
-def make_obj(o):
+def to_world(frame, local):
+    centre, R, pos = frame
+    return ((np.array(local, dtype=float) - centre) @ R.T + pos).tolist()
+
+
+def make_obj(o, with_frame=False):
+    obj, pieces, frame = make_obj_(o)
+    return (obj, pieces, frame) if with_frame else (obj, pieces)
+
+
+def make_obj_(o):
     from scenic.core import shapes
     if "pieces" in o:   # manifold3d returns single-precision coordinates: keep the pieces exactly representable
         o = dict(o, pieces=[dict(ext=[f32(x) for x in p["ext"]], off=[f32(x) for x in p["off"]]) for p in o["pieces"]])
@@ -48,6 +58,7 @@ def make_obj(o):
         kw.update(shape=sh, width=o["dims"][0], length=o["dims"][1], height=o["dims"][2])
         obj = Object._with(**kw)
         pieces = [np.array(obj.occupiedSpace.mesh.vertices, dtype=float)]
+        frame = (np.zeros(3), obj.orientation.getRotation().as_matrix(), np.array(o["pos"], dtype=float))
     else:  # "multi" (disjoint boxes, several bodies) or "lshape" (union of overlapping boxes, one body)
         mesh = piece_boxes_mesh(o["pieces"], union=(k == "lshape"))
         centre = mesh.bounding_box.center_mass.copy()
@@ -64,7 +75,8 @@ def make_obj(o):
         mb = obj.occupiedSpace.mesh.bounds
         if np.max(np.abs(allv.min(axis=0) - mb[0])) > 1e-6 or np.max(np.abs(allv.max(axis=0) - mb[1])) > 1e-6:
             raise RuntimeError("pieces inconsistent with mesh")
-    return obj, pieces
+        frame = (np.array(centre, dtype=float), R, pos)
+    return obj, pieces, frame
 
 
 def hrep(mesh):
@@ -167,7 +179,8 @@ def intersect_oracles(a, b):
     ba, bb = ra.mesh.bounds, rb.mesh.bounds
     o["bbox_overlap"] = all(ba[0, k] <= bb[1, k] and bb[0, k] <= ba[1, k] for k in range(3))
     o["surf_collide"] = bool(fcl.collide(fcl.CollisionObject(*ra._fclData), fcl.CollisionObject(*rb._fclData)))
-    o["both_convex"] = bool(ra.isConvex and rb.isConvex)
+    o["a_convex"] = bool(ra.isConvex)
+    o["b_convex"] = bool(rb.isConvex)
     o["single_bodies"] = bool(ra._bodyCount == 1 and rb._bodyCount == 1)
     o["a_has_b_point"] = bool(ra._containsPointExact(rb._interiorPoint))
     o["b_has_a_point"] = bool(rb._containsPointExact(ra._interiorPoint))
@@ -179,16 +192,43 @@ def intersect_oracles(a, b):
 
 
 def run_pair(case):
-    a, PA = make_obj(case["a"])
-    b, PB = make_obj(case["b"])
     out = {}
+    ca, cb = case["a"], case["b"]
+    guest = None
+    if "rel_local" in cb:      # nested family: the guest's position is given in the host's local frame
+        a, PA, fr = make_obj(ca, with_frame=True)
+        cb = dict(cb, pos=to_world(fr, cb["rel_local"]))
+        out["guest_pos"] = cb["pos"]
+        b, PB = make_obj(cb)
+        guest = "b"
+    elif "rel_local" in ca:
+        b, PB, fr = make_obj(cb, with_frame=True)
+        ca = dict(ca, pos=to_world(fr, ca["rel_local"]))
+        out["guest_pos"] = ca["pos"]
+        a, PA = make_obj(ca)
+        guest = "a"
+    else:
+        a, PA = make_obj(ca)
+        b, PB = make_obj(cb)
     try:
         out["obj_intersects"] = bool(a.intersects(b))
         out["obj_intersects_rev"] = bool(b.intersects(a))
         out["vol_intersects"] = bool(a.occupiedSpace.intersects(b.occupiedSpace))
+        out["vol_intersects_rev"] = bool(b.occupiedSpace.intersects(a.occupiedSpace))
         out["min_dist"] = float(a.minimumDistanceTo(b))
+        if guest:
+            g, h = (b, a) if guest == "b" else (a, b)
+            out["host_contains_guest"] = bool(h.occupiedSpace.containsObject(g))
     except Exception as e:
         out["exc"] = type(e).__name__ + ": " + str(e)[:200]
+    if guest and "host_piece" in (cb if guest == "b" else ca):
+        # strict-inside certificate: every vertex of the guest inside the half-spaces of ONE convex piece of the host, with slack
+        PG, PH = (PB, PA) if guest == "b" else (PA, PB)
+        j = (cb if guest == "b" else ca)["host_piece"]
+        n, d = hrep_of_points(PH[j])
+        allv = np.concatenate(PG)
+        slack = float((d[None, :] - allv @ n.T).min())
+        out["nested_cert"] = dict(j=j, n=n.tolist(), d=d.tolist(), slack=slack, verts=allv.tolist())
     try:
         out["oracles"] = intersect_oracles(a, b)
     except Exception as e:
